@@ -162,6 +162,11 @@ MSpec == MInit /\ [][MNext]_mvars
 C15_ResetDiscards ==
   [][l <= N /\ Trace[l].ev = "CliReset" => db'[Trace[l].fan] = [data |-> FALSE, map |-> FALSE]]_mvars
 
+\* `fan init` characterises the fan and stores the result (PWM map; RPM curve data when the fan has an RPM sensor), so that
+\* the daemon's next start does not analyse it a second time
+C15_InitStores ==
+  [][(l <= N /\ Trace[l].ev = "CliInit" /\ ~Trace[l].err /\ Trace[l].fan \in cf.fans) =>
+       (db'[Trace[l].fan].map /\ (cf.hasRpm[Trace[l].fan] => db'[Trace[l].fan].data))]_mvars
 \* C16 at the level of the device: while a fan is being swept or measured no OTHER fan's PWM is written, unless that
 \* other fan is regulating (its control loop runs) or is being handed back - analysis steps that bypass the hook points
 \* (a measurement restarted outside the initialization sequence, ...) still show as register writes
